@@ -359,12 +359,94 @@ func RunDownload(sw *Swarm, rng *rand.Rand, o DownloadOpts) (tr *Tor, stats map[
 			// data pushed for every block of a piece, requested or not (late answers to dropped requests,
 			// answers to requests that are still sitting in the peer's queue)
 			pi := rng.IntN(np)
+			if rng.IntN(2) == 0 && !tr.T.Pieces.Complete(uint32(pi)) {
+				// the same against a congested peer: the remote stops reading, storrent's writer to it fills up
+				// with have / dont-have, a piece only this remote is known to serve is demanded, so the blocks
+				// commanded to the peer stay in its queue, unsent; then the data arrives anyway
+				r.PauseReading(time.Duration(20+rng.IntN(30)) * time.Second)
+				for k := 0; k < 60+rng.IntN(30); k++ {
+					tr.T.Have(uint32(rng.IntN(np)), k%2 == 0)
+				}
+				if !r.Advertises(pi) {
+					r.Send(refwire.Msg{Kind: refwire.KHave, Index: uint32(pi)})
+				}
+				if r.choking {
+					r.Send(refwire.Msg{Kind: refwire.KUnchoke})
+				}
+				sw.Cut()
+				prio := int8(1 + rng.IntN(3))
+				if ok, _, err := tr.T.Request(uint32(pi), prio, true, false); ok && err == nil {
+					demands = append(demands, demand{uint32(pi), prio})
+				}
+				sw.Act("request piece %d prio %d (its holder is congested)", pi, prio)
+				sw.Cut()
+				time.Sleep(time.Duration(rng.IntN(3)) * time.Second)
+				sw.Cut()
+				stats["push-all-congested"]++
+			} else if out := r.Outstanding(); len(out) > 0 && rng.IntN(4) != 0 {
+				// a piece storrent is asking this remote for: the blocks behind the ones on the wire are
+				// most likely sitting in the peer's queue
+				pi = int(out[rng.IntN(len(out))].Index)
+				stats["push-all-outstanding-piece"]++
+			}
 			for b := 0; b < g.BlocksIn(pi); b++ {
 				off := int64(pi)*int64(g.PieceLen) + int64(b*fixture.Block)
 				r.Send(refwire.Msg{Kind: refwire.KPiece, Index: uint32(pi), Begin: uint32(b * fixture.Block), Data: g.Truth(off, g.BlockLen(pi, b))})
 			}
 			sw.Tag("pushed")
 			stats["push-all"]++
+		case x < 90 && r != nil:
+			// back-pressure on the torrent's mailbox: the loop is held (it is answering a statistics query that
+			// nobody collects yet) while remotes announce and retract pieces, so the 512-slot mailbox fills and
+			// the peers' reports pile up in their overflow lists; then the loop resumes while the remotes go on
+			var togglers []*Remote
+			for _, q := range liveRemotes() {
+				if q.Opt.Ext && q.StExt() != nil && !q.Stalled() {
+					togglers = append(togglers, q)
+				}
+			}
+			if len(togglers) == 0 {
+				break
+			}
+			hold := make(chan *peer.TorStats)
+			posted := false
+			select {
+			case tr.T.Event <- peer.TorGetStats{Ch: hold}:
+				posted = true
+			default:
+			}
+			if !posted {
+				break
+			}
+			sw.Cut()
+			toggle := func(n int) {
+				for k := 0; k < n; k++ {
+					q := togglers[rng.IntN(len(togglers))]
+					i := rng.IntN(np)
+					if q.Advertises(i) {
+						q.SendDontHave(uint32(i))
+					} else {
+						q.Send(refwire.Msg{Kind: refwire.KHave, Index: uint32(i)})
+					}
+				}
+			}
+			toggle(560 + rng.IntN(300))
+			sw.Cut()
+			sw.Act("mailbox holds %d events; the loop resumes", tr.EventQueueLen())
+			go func() {
+				select {
+				case <-hold:
+				case <-tr.T.Done:
+				}
+			}()
+			toggle(100 + rng.IntN(300))
+			if rng.IntN(3) == 0 {
+				q := togglers[rng.IntN(len(togglers))]
+				sw.Act("%s disconnects while its reports are queued", q.Name)
+				q.Close()
+			}
+			sw.Tag("backpressure")
+			stats["backpressure"]++
 		case x < 92: // time
 			d := []time.Duration{300 * time.Millisecond, 300 * time.Millisecond, 2500 * time.Millisecond, 6 * time.Second, 31 * time.Second, 70 * time.Second}[rng.IntN(6)]
 			sw.Act("sleep %v", d)
